@@ -14,7 +14,8 @@ Windows == {w \in [nb : T, na : T] : w.nb < w.na}
 EnvOK      == [parse |-> TRUE, sigValid |-> TRUE, ptype |-> "notary", pjson |-> TRUE]
 BenignDesc == [dgEq |-> TRUE, szEq |-> TRUE, mt |-> "same", genErr |-> FALSE]
 NoMeta     == [k \in MetaKeys |-> "-"]
-Levels     == {BaseLevel("strict"), BaseLevel("audit")}
+\* skipping the revocation validation of the SIGNING chain does not make a revoked TSA acceptable
+Levels     == {BaseLevel("strict"), BaseLevel("audit"), [BaseLevel("strict") EXCEPT !["revocation"] = "skip"]}
 NoCS       == [kind |-> "absent", t |-> 1, acc |-> 0]
 CSKinds    == {[kind |-> k, t |-> 1, acc |-> 0] : k \in {"absent", "garbage"}}
               \cup {[kind |-> k, t |-> -1, acc |-> 0] : k \in {"wrongMessage", "untrusted", "misPurposed", "revoked"}}
